@@ -11,3 +11,6 @@ func raceEnable()                      {}
 func raceAcquire(p unsafe.Pointer)      {}
 func raceRelease(p unsafe.Pointer)      {}
 func raceReleaseMerge(p unsafe.Pointer) {}
+
+func RaceAcquire(p unsafe.Pointer) {}
+func RaceRelease(p unsafe.Pointer) {}
